@@ -1830,6 +1830,59 @@ func (m *Model) ruleRMW(r *Results) {
 			if ins == nil {
 				continue
 			}
+			// (f'') ... and never writes without having found the property vacant: with that
+			// parameter true and the "vacant" edges of the existence tests (the other way out of the
+			// blocks that lead to the refusal) removed, no write-back is reachable at all
+			{
+				c2 := newCut()
+				for _, iff := range allIfs(fn) {
+					cd := condOf(iff)
+					if cd.Op == token.ILLEGAL && cd.X != nil && stripConv(cd.X) == ssa.Value(ins) {
+						c2.cutEdge(iff.Block(), cd.succWhen(false))
+					}
+				}
+				nTests := 0
+				for _, b := range fn.Blocks {
+					isRefusal := false
+					for _, in2 := range b.Instrs {
+						if ld, ok := in2.(*ssa.UnOp); ok && ld.Op == token.MUL {
+							if g, ok := ld.X.(*ssa.Global); ok && g.Name() == "ErrPathExists" && g.Pkg != nil && g.Pkg.Pkg.Path() == sgbucketPath {
+								isRefusal = true
+							}
+						}
+					}
+					if !isRefusal || len(b.Preds) != 1 {
+						continue
+					}
+					d := b.Preds[0]
+					if _, isIf := d.Instrs[len(d.Instrs)-1].(*ssa.If); !isIf {
+						continue
+					}
+					if cd := condOf(d.Instrs[len(d.Instrs)-1].(*ssa.If)); cd.Op == token.ILLEGAL && cd.X != nil && stripConv(cd.X) == ssa.Value(ins) {
+						continue // (the flag test itself)
+					}
+					for _, sx := range d.Succs {
+						if sx != b {
+							c2.cutEdge(d, sx)
+							nTests++
+						}
+					}
+				}
+				if nTests > 0 {
+					reach := entryReach(fn, c2)
+					bad := ""
+					for _, w := range lp.Writes {
+						site := w
+						if v, ok := lp.Via[w]; ok {
+							site = v
+						}
+						if site.Parent() == fn && reach[site.Block().Index] {
+							bad = m.instrPos(site)
+						}
+					}
+					r.check(bad == "", rule, m.declName(fn)+" / an insert-only write found the property vacant on every path", m.pos(fn.Pos()), "with the insert flag set, the write-back lies behind the 'not there yet' edge of an existence test on every path", "with the insert flag set, the write-back at "+bad+" can be reached on a path that never tested whether the property exists (the test is made on some paths only): an insert then silently overwrites an existing property")
+				}
+			}
 			c := newCut()
 			for _, iff := range allIfs(fn) {
 				cd := condOf(iff)
@@ -1864,6 +1917,45 @@ func (m *Model) ruleRMW(r *Results) {
 							continue
 						}
 						reach := reachableFrom(sx, c)
+						for _, w := range lp.Writes {
+							site := w
+							if v, ok := lp.Via[w]; ok {
+								site = v
+							}
+							if site.Parent() == fn && reach[site.Block().Index] {
+								bad = m.instrPos(site)
+							}
+						}
+					}
+				}
+				// (an error that errors.As / errors.Is recognised is an error: the true edge of such a
+				// test on the read's error counts as a failure edge as well)
+				for _, iff := range allIfs(fn) {
+					cd := condOf(iff)
+					if cd.Op != token.ILLEGAL || cd.X == nil {
+						continue
+					}
+					call, ok := stripConv(cd.X).(*ssa.Call)
+					if !ok || len(call.Common().Args) == 0 {
+						continue
+					}
+					g := call.Common().StaticCallee()
+					if g == nil || g.Pkg == nil || g.Pkg.Pkg.Path() != "errors" || (g.Name() != "As" && g.Name() != "Is") {
+						continue
+					}
+					if a0 := call.Common().Args[0]; stripConv(a0) != errV && !flowsThroughPhi(errV, a0) {
+						continue
+					}
+					sx := cd.succWhen(true)
+					if c.edges[edge{iff.Block().Index, sx.Index}] {
+						continue
+					}
+					if iff.Block() != rd.Block() && !reachableFromSuccs(rd.Block(), c)[iff.Block().Index] {
+						continue // not reached with the insert flag set
+					}
+					{
+						reach := reachableFrom(sx, c)
+						reach[sx.Index] = true
 						for _, w := range lp.Writes {
 							site := w
 							if v, ok := lp.Via[w]; ok {
